@@ -60,7 +60,17 @@ def fmat(M):
 
 
 def f_matmul(A, B):
-    return [[sum(A[i][k] * B[k][j] for k in range(len(B))) for j in range(len(B[0]))] for i in range(len(A))]
+    nb = len(B[0]) if B else 0
+    out = []
+    for row in A:
+        acc = [Fraction(0)] * nb
+        for k, a in enumerate(row):
+            if a != 0:
+                for j, bkj in enumerate(B[k]):
+                    if bkj != 0:
+                        acc[j] += a * bkj
+        out.append(acc)
+    return out
 
 
 def f_T(A):
@@ -209,6 +219,22 @@ def gen_gspec(rng, dim, form, shape):
             d = [rng.choice(SQ_POOL + [2.0, 0.5]) for _ in range(dim)]
             g["value"] = [[d[i] if i == j else 0.0 for j in range(dim)] for i in range(dim)]
             g["aux"] = tofloat([[1 / F(d[i]) if i == j else Fraction(0) for j in range(dim)] for i in range(dim)])
+    elif dim > 8:
+        # large dimension: a genuinely non-diagonal matrix with an exact, well-conditioned inverse: block diagonal of small full blocks
+        val = [[0.0] * dim for _ in range(dim)]
+        aux = [[0.0] * dim for _ in range(dim)]
+        o, has_aux = 0, False
+        while o < dim:
+            bs = min(rng.randint(2, 4), dim - o)
+            gb = gen_gspec(rng, bs, form, "full")
+            for i in range(bs):
+                for j in range(bs):
+                    val[o + i][o + j] = gb["value"][i][j]
+                    if gb.get("aux") is not None:
+                        aux[o + i][o + j] = gb["aux"][i][j]
+                        has_aux = True
+            o += bs
+        g["value"], g["aux"] = val, (aux if has_aux else None)
     else:
         U = gen_upper(rng, dim)
         Ui = f_inv_upper(U)
@@ -331,8 +357,21 @@ def pert_scale(b_tild):
 # ---------------------------------------------------------------------------------------------
 # building the cuqi objects from a spec
 # ---------------------------------------------------------------------------------------------
+def dom_geom(cuqi, spec):
+    """domain geometry of the models: the dimension n, or an Image2D for the 2-d GMRF / LMRF priors"""
+    if spec["prior"].get("two_d"):
+        side = int(round(spec["n"] ** 0.5))
+        return cuqi.geometry.Image2D((side, side))
+    return spec["n"]
+
+
 def mk_model(cuqi, A, mkind, m, n):
     A = np.array(A, dtype=float)
+    if not isinstance(n, int):
+        # 2-d domain: function pair acting on images (a matrix-based LinearModel with an Image2D domain is C07/C12's subject)
+        shp = n.fun_shape
+        return cuqi.model.LinearModel(lambda X, A=A: A @ np.asarray(X).ravel(), lambda y, A=A, shp=shp: (A.T @ y).reshape(shp),
+                                      range_geometry=m, domain_geometry=n)
     if mkind == "matrix":
         return cuqi.model.LinearModel(A)
     return cuqi.model.LinearModel(lambda x, A=A: A @ x, lambda y, A=A: A.T @ y, range_geometry=m, domain_geometry=n)
@@ -355,7 +394,7 @@ def mk_prior(cuqi, spec):
                                                        [np.array(b["S"], dtype=float) for b in p["blocks"]], geometry=n, name="x")
     if p["kind"] == "lmrf":
         loc = float(p["loc"][0]) if len(p["loc"]) == 1 else np.array(p["loc"], dtype=float)
-        return cuqi.distribution.LMRF(loc, float(p["scale"]), bc_type=p["bc"], geometry=n, name="x")
+        return cuqi.distribution.LMRF(loc, float(p["scale"]), bc_type=p["bc"], geometry=dom_geom(cuqi, spec), name="x")
     raise ValueError(p["kind"])
 
 
@@ -372,7 +411,7 @@ def mk_target(cuqi, spec):
     x = mk_prior(cuqi, spec)
     ys, data = [], {}
     for i, l in enumerate(spec["liks"]):
-        model = mk_model(cuqi, l["A"], spec["mkind"], len(l["b"]), n)
+        model = mk_model(cuqi, l["A"], spec["mkind"], len(l["b"]), dom_geom(cuqi, spec))
         y = cuqi.distribution.Gaussian(model(x), name="y%d" % i, **gauss_kwargs(l["noise"]))
         ys.append(y)
         data["y%d" % i] = np.array(l["b"], dtype=float)
@@ -475,15 +514,19 @@ def basis(p, i):
     return v
 
 
-def observe(cuqi, spec):
-    """drive the real implementation on one configuration; returns a JSON-able dict of observations"""
+def observe(cuqi, spec, target=None, sampler=None):
+    """drive the real implementation on one configuration; returns a JSON-able dict of observations.
+    With `target` / `sampler` given (histories) those objects are driven instead of fresh ones."""
     n = spec["n"]
-    with quiet():
-        target = mk_target(cuqi, spec)
+    if target is None:
+        with quiet():
+            target = mk_target(cuqi, spec)
     obs = {}
     with Capture(cuqi) as cap:
-        with quiet():
-            sampler = make_sampler(cuqi, spec, target, spec["xcurs"][0])
+        if sampler is None:
+            with quiet():
+                sampler = make_sampler(cuqi, spec, target, spec["xcurs"][0])
+        obs["_sampler"] = sampler
         if spec["kind"] == "rto":
             tgt = sampler.target
             obs["S_liks"] = [dense(l.distribution.sqrtprec).tolist() for l in sampler.likelihoods]
@@ -526,7 +569,7 @@ def observe(cuqi, spec):
             rec_draw(0, spec["xcurs"][0], [c * v for v in basis(p, i)])
         # other current states, same perturbations: the draw must not depend on the state (RTO);
         # for UGLA the local Gaussian moves with the state, so other states are separate configurations
-        if spec["kind"] == "rto":
+        if spec["kind"] == "rto" and spec.get("estar"):
             for ci in range(1, len(spec["xcurs"])):
                 for e in ([0.0] * p, estar):
                     rec_draw(ci, spec["xcurs"][ci], e)
@@ -600,6 +643,11 @@ def read_off(obs):
 
 def exact_posterior(spec, obs):
     H, r = user_posterior(spec, obs) if spec["kind"] == "rto" else ugla_doc_posterior(spec, obs)
+    if len(H) > 12:
+        # large dimension (> 75 cells): H, r are exact, the solve is float64 (H well conditioned by construction)
+        Hf = np.array([[float(v) for v in row] for row in H])
+        rf = np.array([float(v) for v in r])
+        return H, r, np.linalg.solve(Hf, rf).tolist(), np.linalg.inv(Hf).tolist()
     mean, cov = f_solve_inv(H, r)
     return H, r, mean, cov
 
@@ -627,6 +675,8 @@ def oracle_check(spec, obs):
                     return "state", "same perturbation, current state %r: draw %s vs %s from the first state" % (d["xcur"], d["x"], ref[key].tolist())
             ref.setdefault(key, np.array(d["x"]))
         # affine: x(e*) = x0 + G e*
+        if not obs.get("estar"):
+            return None
         es = np.array(obs["estar"])
         xs_ = np.array([d["x"] for d in obs["draws"] if d["xcur"] == 0 and d["e"] == obs["estar"]][0])
         pred = x0 + G @ es
@@ -656,6 +706,7 @@ def rand_dyadic_vec(rng, k, den=2, lo=-4, hi=4):
 
 PRIOR_CELLS = ([("gaussian", f, s, sm) for f in FORMS for s in SHAPES for sm in (False, True)] +
                [("gmrf", bc, order, None) for bc, order in (("zero", 1), ("neumann", 1), ("periodic", 1), ("zero", 2), ("zero", 0))] +
+               [("gmrf", "zero", 1, "2d"), ("gmrf", "neumann", 1, "2d"), ("gmrf", "zero", 2, "2d")] +
                [("joint", 2, None, None), ("joint", 3, None, None)])
 NOISE_CELLS = [(f, s) for f in FORMS for s in SHAPES]
 
@@ -688,7 +739,9 @@ def gen_rto_spec(rng, idx, iface, target, mkind, noise_cells, prior_cell, shape_
         n_min = 4
     n = rng.randint(n_min, 4)
     if prior_cell[0] == "gmrf" and prior_cell[3] == "2d":
-        n = 4                                             # 2 x 2 image
+        n = 9 if (prior_cell[2] == 2 or idx % 3 == 2) else 4      # 3 x 3 or 2 x 2 image
+    if prior_cell[0] == "gmrf" and prior_cell[3] == "2d":
+        mkind = "function"
     k = len(noise_cells)
     liks = []
     for (f, s) in noise_cells:
@@ -733,13 +786,13 @@ def singular_prior(pc):
     return pc[0] == "gmrf" and pc[1] in ("neumann", "periodic")
 
 
-def fit_pattern(patname, singular, shape):
+def fit_pattern(patname, singular, shape, no_over=False):
     """make a unit-scale pattern compatible with the cell: when the likelihood dominates the posterior (noise tiny or
     prior huge) the stacked model must have full column rank (over-determined); when the prior dominates (noise huge or
     prior tiny) the prior precision must be definite -- otherwise the SAME exponent is applied to both units instead"""
     name, ka, kb, kn, kp = PATTERN_BY_NAME[patname]
     lik_dom, prior_dom = (kn < 0 or kp > 0), (kn > 0 or kp < 0)
-    if prior_dom and singular:
+    if (prior_dom and singular) or (lik_dom and no_over):
         patname = "units-xy%+d" % (kn or kp)
     elif lik_dom:
         shape = "over"
@@ -769,7 +822,8 @@ def lattice_rto(ctx):
             pc = ("gaussian", "sqrtprec", SHAPES[(i // 10) % 4], bool((i // 20) % 2))
             if pc[2] == "scalar" and pc[3]:
                 pc = ("gaussian", "sqrtprec", "vector", True)      # scalar mean AND scalar sqrtprec: prior of dim 1 (refused)
-        pat, shape = fit_pattern(PATTERNS[(i * 7 + i // len(PATTERNS)) % len(PATTERNS)][0], singular_prior(pc), shapes[i % 3])
+        pat, shape = fit_pattern(PATTERNS[(i * 7 + i // len(PATTERNS)) % len(PATTERNS)][0], singular_prior(pc), shapes[i % 3],
+                                 no_over=(pc[0] == "gmrf" and pc[3] == "2d"))          # 3 x 3 images: never over-determined with <= 5 rows
         specs.append((i, iface, target, mkind, noise, pc, shape, pat))
     # dedicated unit-scale sweep: each full-matrix input form of the noise / of the prior posed so that the matrix the user
     # hands over is tiny (entries ~ 2^-34 and below) and huge, alone and together with the other units
@@ -792,6 +846,48 @@ def lattice_rto(ctx):
                     specs.append((j, iface, target, mkind, noise, pc, shape, pat))
                     j += 1
     return specs
+
+
+# ---- dimensions above config.MIN_DIM_SPARSE = 75: the sparse branches of Gaussian (spa.identity / spa.diags for scalar, vector
+# and diagonal input; eigh-based dense factor for full matrices), through the same certificates ----
+BIG = 76
+
+
+def lattice_big(ctx):
+    cells = [("prior", "cov", "vector"), ("noise", "prec", "full")]
+    if ctx.thorough:
+        cells += [("prior", f, s) for f in FORMS for s in ("scalar", "diagmat", "full")] + \
+                 [("noise", f, s) for f in FORMS for s in ("vector", "scalar", "full")] + [("prior", "sqrtprec", "vector"), ("noise", "cov", "diagmat")]
+    seen, out = set(), []
+    for c in cells:
+        if c not in seen:
+            seen.add(c)
+            out.append((9000 + len(out), ["exp", "legacy"][len(out) % 2]) + c)
+    return out
+
+
+def gen_big_spec(cuqi, rng, cell):
+    idx, iface, role, form, shape = cell
+    for attempt in range(20):
+        if role == "prior":
+            n, m = BIG, 3
+            A = [[float(rng.choice([0, 0, 0, 1, -1, 2])) for _ in range(n)] for _ in range(m)]
+            noise = gen_gspec(rng, m, *NOISE_CELLS[idx % 16])
+            prior = {"kind": "gaussian", "g": gen_gspec(rng, n, form, shape), "mean": [rng.randint(-4, 4) / 2] if idx % 2 else rand_dyadic_vec(rng, n),
+                     "scalar_mean": bool(idx % 2)}
+        else:
+            n, m = 3, BIG
+            A = rand_int_matrix(rng, m, n, -2, 2)
+            noise = gen_gspec(rng, m, form, shape)
+            prior = gen_prior(rng, n, PRIOR_CELLS[(idx * 5) % 32])
+        spec = {"kind": "rto", "iface": iface, "target": "posterior", "mkind": ["matrix", "function"][idx % 2], "n": n,
+                "liks": [{"A": A, "b": [float(rng.randint(-5, 5)) for _ in range(m)], "noise": noise}], "prior": prior,
+                "xcurs": [[0.0] * n], "shape": "big", "idx": idx}
+        spec["cell"] = "rto-dim76/%s/%s=%s-%s" % (iface, role, form, shape)
+        H, r = user_posterior(spec, {})
+        if np.linalg.cond(np.array([[float(v) for v in row] for row in H])) <= 2e3:
+            return spec
+    raise RuntimeError("could not generate a well-conditioned large configuration %r" % (cell,))
 
 
 UGLA_LOCS = ["zero", "scalar", "vector", "const-vector"]
@@ -818,6 +914,12 @@ def lattice_ugla(ctx):
         out.append((i, ["exp", "legacy"][i % 2], ["matrix", "function"][(i // 2) % 2], bc, UGLA_LOCS[(i // 3) % 4],
                     scales[(i // 4) % 4], [1.0, 0.25, 0.01][(i // 5) % 3], ["zero", "random"][(i // 6 + i) % 2],
                     NOISE_CELLS[(i * 3) % 16], pat))
+    # 2-d LMRF priors (Image2D domain, function-pair model)
+    for k in range(ctx.n(4, 24)):
+        bc = ["zero", "neumann"][k % 2]
+        out.append((N + 1000 + k, ["exp", "legacy"][(k // 2) % 2], "function", bc + ":2d", UGLA_LOCS[k % 4], scales[k % 4], [1.0, 0.25, 0.01][k % 3],
+                    ["zero", "random"][(k // 2) % 2], NOISE_CELLS[(k * 5 + 3) % 16],
+                    fit_ugla_pattern(UGLA_PATTERNS[(k * 3) % len(UGLA_PATTERNS)], bc)))
     # unit-scale sweep of the full-matrix noise forms: tiny / huge, alone and with the y-units
     j = N
     for rep in range(ctx.n(1, 4)):
@@ -834,7 +936,11 @@ def lattice_ugla(ctx):
 
 def gen_ugla_spec(rng, cell):
     i, iface, mkind, bc, lock, scale, beta, xkk, (f, s), patname = cell
+    two_d = bc.endswith(":2d")
+    bc = bc.split(":")[0]
     n = rng.randint(3, 4)
+    if two_d:
+        n, mkind = 4, "function"                          # 2 x 2 image, D is 12 x 4 (zero) / 4 x 4 (neumann)
     m = rng.randint(n, 5)
     while True:
         A = rand_int_matrix(rng, m, n)
@@ -847,8 +953,8 @@ def gen_ugla_spec(rng, cell):
     xk = [0.0] * n if xkk == "zero" else rand_dyadic_vec(rng, n, 4, -3, 3)
     spec = {"kind": "ugla", "iface": iface, "target": "posterior", "mkind": mkind, "n": n,
             "liks": [{"A": A, "b": [float(rng.randint(-5, 5)) for _ in range(m)], "noise": gen_gspec(rng, m, f, s)}],
-            "prior": {"kind": "lmrf", "bc": bc, "loc": loc, "scale": scale}, "beta": beta, "xcurs": [xk], "idx": i}
-    spec["cell"] = cell_name(spec) + "/noise=%s-%s/units=%s" % (f, s, patname)
+            "prior": {"kind": "lmrf", "bc": bc, "loc": loc, "scale": scale, "two_d": two_d}, "beta": beta, "xcurs": [xk], "idx": i}
+    spec["cell"] = cell_name(spec) + "%s/noise=%s-%s/units=%s" % ("/2d" if two_d else "", f, s, patname)
     return apply_scale(spec, PATTERN_BY_NAME[patname])
 
 
@@ -896,7 +1002,7 @@ def c_prior_spec(spec, obs):
     return "(PJoint %s)" % clist(["(%s, %s)" % (qm(b["S"]), qv(b["mean"])) for b in p["blocks"]])
 
 
-def rto_cases(spec, obs, fail):
+def rto_cases(spec, obs, fail, only_precompute=False):
     n, p = spec["n"], obs["p"]
     cell = cell_name(spec)
     sig = signature_of(spec, fail[0]) if fail else ""
@@ -935,14 +1041,23 @@ def rto_cases(spec, obs, fail):
         add("precompute-tuple", body)
     body = "check_precompute %s %s %s pr %s %s %s" % (tol, cnat(n), c_liks_obs(spec, obs), qv(obs["b_tild"]), qm(obs["M_fwd"]), qm(obs["M_adj"]))
     add("precompute", c_prior_obs(spec, obs, body), extra={"exact": exact})
+    if only_precompute:
+        return cases
     # 3. every transition returns a point satisfying the normal equations of the model's (M, b_tild)
-    dr = clist(["(%s, %s, %s)" % (qv(d["xcur_v"]), qv(d["e"]), qv(d["x"])) for d in obs["draws"]])
+    big = max(n, p) > 40
+    certified = obs["draws"] if not big else [obs["draws"][i] for i in (0, 1, p // 2, p)] + obs["draws"][p + 1:]
+    dr = clist(["(%s, %s, %s)" % (qv(d["xcur_v"]), qv(d["e"]), qv(d["x"])) for d in certified])
     body = "check_draws %s %s %s pr %s && %s" % (c_tol(8), cnat(n), c_liks_obs(spec, obs), dr, cbool(all(d["fired"] for d in obs["draws"])))
     add("draws", c_prior_obs(spec, obs, body))
     # 4. the affine map against the posterior the user specified
     ls = clist(["(%s, %s, %s, %s)" % (qm(l["A"]), COQF[l["noise"]["form"]], c_gval(l["noise"]), qv(l["b"])) for l in spec["liks"]])
     x0 = obs["draws"][0]["x"]
     xs = [obs["draws"][1 + i]["x"] for i in range(p)]
+    if n > 40:
+        # dimension > 75: the read-off H x(0) = rhs, H G G^T = I is evaluated by the oracle only (float64 on exact H); the model
+        # side certifies forms, precompute and a subset of the transitions
+        add("law", cbool(fail is None or fail[0] in ("state", "affine")))
+        return cases
     add("law", "check_law_spec tol6 %s %s %s %s %s %s" % (cnat(n), ls, c_prior_spec(spec, obs), qs(obs["c"]), qv(x0), qm(xs)))
     # 5. independence of the current state (differences relative to the natural scale of x read off above)
     ref = {}
@@ -1071,6 +1186,49 @@ def raised_case(spec, obs):
                 impl_fail="valid configuration, but no draw: " + obs["raised"], signature=signature_of(spec, "raises"))
 
 
+def regularized_cases(cuqi, rng, ctx):
+    """RegularizedLinearRTO (same anchored files) shares _precompute with LinearRTO: its (M, b_tild) must be those of the
+    underlying Gaussian / GMRF.  Only that linear-Gaussian part belongs to C06 -- its draws are proximal (FISTA) solutions,
+    not Gaussian draws, and the property text does not speak of them."""
+    from cuqi.implicitprior import RegularizedGaussian, RegularizedGMRF
+    cases = []
+    for k in range(ctx.n(4, 16)):
+        iface = ["exp", "legacy"][k % 2]
+        pc = ("gmrf", ["zero", "neumann"][(k // 4) % 2], 1, None) if (k // 2) % 2 else PRIOR_CELLS[(k * 7 + 3) % 32]
+        spec = gen_rto_spec(rng, 8000 + k, iface, "posterior", ["matrix", "function"][(k // 2) % 2], [NOISE_CELLS[(k * 5 + 1) % 16]], pc, ["over", "under"][k % 2])
+        spec["cell"] = "regularized-rto/%s/prior=%s" % (iface, cell_name(spec).split("/prior=")[-1].split("/units")[0])
+        n, p_ = spec["n"], spec["prior"]
+        try:
+            with quiet():
+                if p_["kind"] == "gaussian":
+                    mean = float(p_["mean"][0]) if p_.get("scalar_mean") else np.array(p_["mean"], dtype=float)
+                    x = RegularizedGaussian(mean, constraint="nonnegativity", geometry=n, name="x", **gauss_kwargs(p_["g"]))
+                else:
+                    x = RegularizedGMRF(np.array(p_["mean"], dtype=float), float(p_["prec"]), bc_type=p_["bc"], order=p_["order"],
+                                        constraint="nonnegativity", name="x")
+                l = spec["liks"][0]
+                y = cuqi.distribution.Gaussian(mk_model(cuqi, l["A"], spec["mkind"], len(l["b"]), n)(x), name="y", **gauss_kwargs(l["noise"]))
+                post = cuqi.distribution.JointDistribution(x, y)(y=np.array(l["b"], dtype=float))
+                if iface == "exp":
+                    s = cuqi.experimental.mcmc.RegularizedLinearRTO(post, stepsize=0.05, maxit=5)
+                    s.initialize()
+                else:
+                    s = cuqi.sampler.RegularizedLinearRTO(post, stepsize=0.05, maxit=5)
+            b_t = np.array(s.b_tild, dtype=float)
+            p = len(b_t)
+            obs = {"S_liks": [dense(lk.distribution.sqrtprec).tolist() for lk in s.likelihoods], "S_prior": dense(s.prior.sqrtprec).tolist(),
+                   "b_tild": b_t.tolist(), "p": p,
+                   "M_fwd": [np.array(s.M(np.array(basis(n, j)), 1), dtype=float).tolist() for j in range(n)],
+                   "M_adj": [np.array(s.M(np.array(basis(p, i)), 2), dtype=float).tolist() for i in range(p)]}
+            if p_["kind"] == "gmrf":
+                obs["Pop"] = dense(s.prior._prec_op.get_matrix()).tolist()
+        except Exception as ex:
+            cases.append(raised_case(spec, {"raised": "%s: %s" % (type(ex).__name__, ex)}))
+            continue
+        cases += rto_cases(spec, obs, None, only_precompute=True)
+    return cases
+
+
 def refusal_cases(cuqi, rng):
     cases = []
     A = np.array([[1.0, 2.0, 0.0], [0.0, 1.0, -1.0], [2.0, 0.0, 1.0], [1.0, 1.0, 1.0]])
@@ -1121,6 +1279,319 @@ def refusal_cases(cuqi, rng):
     return cases
 
 
+# ---------------------------------------------------------------------------------------------
+# HISTORIES on shared objects: build sampler -> draw -> re-assign ONE settable parameter of the prior / noise / data
+# object IN PLACE -> (a) a new sampler on the same objects must be the sampler of fresh objects carrying the new
+# value; (b) the OLD sampler keeps being used; (c) a third sampler shares the prior object with another likelihood;
+# (d) keep-alive: everything observed earlier on a still-living sampler is re-read and must be bit-identical.
+#
+# What the property requires of (b): every draw is an exact draw of A posterior the target denoted -- the one at
+# construction (snapshot semantics: _precompute ran then) or the current one (live semantics).  LinearRTO captures L1, L2,
+# L2mu, b_tild and reads only the noise sqrtprec of flag 2 live: after a NOISE re-assignment its flag 2 is no longer the
+# transpose of its flag 1 and the draws belong to neither posterior (finding *stale-sampler:noise-reassigned*, repair
+# fixes/C06_rto_flag2_captured_sqrtprec.diff; state probed per interface).  Experimental UGLA captures L1, location, D and
+# reads data, scale, beta live (each single re-assignment gives the old or the new local Gaussian); legacy UGLA reads
+# everything at sample() time.
+# ---------------------------------------------------------------------------------------------
+SIG_STALE = {"exp": "experimental.LinearRTO.step|stale-sampler:noise-reassigned-in-place",
+             "legacy": "sampler.LinearRTO._sample|stale-sampler:noise-reassigned-in-place"}
+# which value the OLD experimental UGLA sampler uses after a re-assignment
+UGLA_EXP_STALE = {"scale": "new", "location": "old", "noise": "old", "data": "new"}
+
+
+def build_shared(cuqi, spec, lik_index=0):
+    """the objects of one configuration, shared: prior x, noise distribution y, likelihood L, Posterior(L, x)"""
+    n = spec["n"]
+    with quiet():
+        x = mk_prior(cuqi, spec)
+        l = spec["liks"][lik_index]
+        model = mk_model(cuqi, l["A"], spec["mkind"], len(l["b"]), dom_geom(cuqi, spec))
+        y = cuqi.distribution.Gaussian(model(x), name="y%d" % lik_index, **gauss_kwargs(l["noise"]))
+        L = y.to_likelihood(np.array(l["b"], dtype=float))
+        post = cuqi.distribution.Posterior(L, x)
+    return {"x": x, "y": y, "L": L, "post": post}
+
+
+def apply_assign(spec, asg):
+    spec = copy.deepcopy(spec)
+    who, param, val = asg["who"], asg["param"], asg["value"]
+    if who == "data":
+        spec["liks"][0]["b"] = val
+    elif who == "noise":
+        spec["liks"][0]["noise"] = val
+    elif who == "prior":
+        p = spec["prior"]
+        if param == "mean":
+            p["mean"] = val
+            p["scalar_mean"] = False
+        elif param == "location":
+            p["loc"] = val
+        elif param == "scale":
+            p["scale"] = val
+        elif param == "prec" and p["kind"] == "gmrf":
+            p["prec"] = val
+        else:
+            p["g"] = val
+    return spec
+
+
+def do_assign(objs, asg):
+    who, param, val = asg["who"], asg["param"], asg["value"]
+    with quiet():
+        if who == "data":
+            objs["L"].data = np.array(val, dtype=float)
+        elif who == "noise":
+            setattr(objs["y"], param, list(gauss_kwargs(val).values())[0])
+        elif param in ("mean", "location"):
+            setattr(objs["x"], param, np.array(val, dtype=float) if len(val) > 1 else float(val[0]))
+        elif param in ("scale", "prec") and not isinstance(val, dict):
+            setattr(objs["x"], param, float(val))
+        else:
+            setattr(objs["x"], param, list(gauss_kwargs(val).values())[0])
+
+
+def snapshot(obs):
+    return json.dumps({k: obs[k] for k in ("b_tild", "M_fwd", "M_adj") if k in obs}, sort_keys=True)
+
+
+def probe_flag2(cuqi):
+    """does flag 2 of a living sampler follow an in-place change of the noise sqrtprec (code as it stands) or keep the
+    captured one (repaired)?  fixed witness, per interface"""
+    st = {}
+    A = [[1.0, 2.0, 0.0], [0.0, 1.0, -1.0], [2.0, 0.0, 1.0], [1.0, 1.0, 1.0]]
+    for iface in ("exp", "legacy"):
+        spec = {"kind": "rto", "iface": iface, "target": "posterior", "mkind": "matrix", "n": 3, "xcurs": [[0.0] * 3],
+                "liks": [{"A": A, "b": [1.0, 2.0, 3.0, 4.0], "noise": {"form": "cov", "shape": "vector", "dim": 4, "value": [1.0, 4.0, 16.0, 0.25]}}],
+                "prior": {"kind": "gaussian", "mean": [1.0, -1.0, 2.0], "scalar_mean": False,
+                          "g": {"form": "prec", "shape": "scalar", "dim": 3, "value": 4.0}}}
+        objs = build_shared(cuqi, spec)
+        with quiet():
+            s = make_sampler(cuqi, spec, objs["post"], [0.0] * 3)
+        before = np.array(s.M(np.array(basis(7, 0)), 2), dtype=float)
+        objs["y"].cov = np.array([4.0, 1.0, 1.0, 1.0])
+        after = np.array(s.M(np.array(basis(7, 0)), 2), dtype=float)
+        st[iface] = "captured" if np.array_equal(before, after) else "live"
+    return st
+
+
+def history_cells(ctx):
+    """deterministic list of (id, sampler kind, iface, prior cell, noise cell, assignment kind)"""
+    out = []
+    j = 0
+    reps = ctx.n(1, 4)
+    for rep in range(reps):
+        for iface in ("exp", "legacy"):
+            cells = []
+            for f in FORMS:
+                cells.append(("rto", ("gaussian", f, SHAPES[(j + rep) % 4], bool(rep % 2)), NOISE_CELLS[(3 * j + rep) % 16], ("prior", f, SHAPES[(j + rep + 1) % 4])))
+                cells.append(("rto", PRIOR_CELLS[(5 * j + rep) % 32], (f, SHAPES[(j + 2 * rep) % 4]), ("noise", f, SHAPES[(j + rep + 3) % 4])))
+                j += 1
+            cells.append(("rto", ("gaussian", FORMS[(j + rep) % 4], SHAPES[(j + rep) % 4], True), NOISE_CELLS[(j + rep) % 16], ("prior", "mean", None)))
+            for bc in ("zero", "neumann", "periodic"):
+                cells.append(("rto", ("gmrf", bc, 1, None), NOISE_CELLS[(j + rep) % 16], ("prior", "prec", None)))
+                j += 1
+            cells.append(("rto", ("gmrf", "zero", 2, None), NOISE_CELLS[(j + rep + 7) % 16], ("prior", "mean", None)))
+            cells.append(("rto", PRIOR_CELLS[(7 * j + rep) % 32], NOISE_CELLS[(j + rep + 5) % 16], ("data", "data", None)))
+            for k, what in enumerate(("scale", "location", "noise", "data")):
+                cells.append(("ugla", ("lmrf", ["zero", "neumann", "periodic"][(k + rep) % 3]), (FORMS[(k + rep) % 4], SHAPES[(k + 2 * rep + 3) % 4]),
+                              ("prior" if what in ("scale", "location") else what, what, SHAPES[(k + rep) % 4])))
+            for c in cells:
+                out.append((len(out),) + (c[0], iface) + c[1:])
+    return out
+
+
+def gen_history(cuqi, rng, cell):
+    hid, skind, iface, pc, nc, (who, param, shape) = cell
+    for attempt in range(40):
+        if skind == "rto":
+            spec = gen_rto_spec(rng, hid, iface, "posterior", ["matrix", "function"][hid % 2], [nc], pc, ["over", "square", "under"][hid % 3])
+        else:
+            spec = gen_ugla_spec(rng, (hid, iface, ["matrix", "function"][hid % 2], pc[1], UGLA_LOCS[hid % 4], [1.0, 0.25, 4.0][hid % 3],
+                                       [1.0, 0.25][hid % 2], ["zero", "random"][hid % 2], nc, "base"))
+        n, m = spec["n"], len(spec["liks"][0]["b"])
+        if who == "data":
+            val = [float(rng.randint(-5, 5)) for _ in range(m)]
+        elif who == "noise":
+            val = gen_gspec(rng, m, nc[0], shape)
+            param = nc[0]
+        elif param == "mean":
+            val = rand_dyadic_vec(rng, n)
+        elif param == "location":
+            val = rand_dyadic_vec(rng, n, 2, -3, 3) if hid % 2 else [rng.choice([1.0, -2.0, 0.5])]
+        elif param == "scale":
+            val = rng.choice([v for v in (1.0, 0.25, 4.0, 2.0) if v != spec["prior"]["scale"]])
+        elif param == "prec" and pc[0] == "gmrf":
+            val = rng.choice([v for v in (1.0, 4.0, 0.25, 3.0, 0.5) if v != spec["prior"]["prec"]])
+        else:
+            val = gen_gspec(rng, n, pc[1], shape)
+            param = pc[1]
+        asg = {"who": who, "param": param, "value": val}
+        spec["xcurs"] = [spec["xcurs"][0]]
+        spec.pop("estar", None)
+        spec1 = apply_assign(spec, asg)
+        if spec1 == spec:
+            continue
+        # a second likelihood for the sampler that shares the prior object
+        lb = {"A": rand_int_matrix(rng, n + 1, n), "b": [float(rng.randint(-5, 5)) for _ in range(n + 1)],
+              "noise": gen_gspec(rng, n + 1, *NOISE_CELLS[(hid * 5) % 16])}
+        if skind == "rto":
+            ok = True
+            for sp in (spec, spec1, dict(spec1, liks=[lb])):
+                Pop = None
+                if sp["prior"]["kind"] == "gmrf":
+                    with quiet():
+                        Pop = dense(mk_prior(cuqi, sp)._prec_op.get_matrix()).tolist()
+                H, r = user_posterior(sp, {"Pop": Pop})
+                if np.linalg.cond(np.array([[float(v) for v in row] for row in H])) > 2e3:
+                    ok = False
+            if not ok:
+                continue
+        base = "history/%s/%s/%s/reassign-%s-%s" % (skind, iface, cell_name(spec).split("/prior=")[-1].split("/units")[0] if skind == "rto" else spec["prior"]["bc"],
+                                                     who, param)
+        return {"id": hid, "skind": skind, "iface": iface, "spec0": spec, "spec1": spec1, "assign": asg, "lik_b": lb, "cell": base}
+    raise RuntimeError("could not generate history %r" % (cell,))
+
+
+def run_history(cuqi, h, st_ugla, st_flag2):
+    """drive one history on the real implementation; returns the list of cases"""
+    spec0, spec1, asg, iface, skind = h["spec0"], h["spec1"], h["assign"], h["iface"], h["skind"]
+    cases = []
+
+    def tag(sp, step):
+        sp = copy.deepcopy(sp)
+        sp["cell"] = h["cell"] + "/" + step
+        sp["history"] = {"id": h["id"], "step": step, "assign": asg}
+        return sp
+
+    def emit(sp, obs, step):
+        sp = tag(sp, step)
+        if "raised" in obs:
+            cases.append(raised_case(sp, obs))
+            return
+        obs = {k: v for k, v in obs.items() if k != "_sampler"}
+        if skind == "rto":
+            fail = oracle_check(sp, obs)
+            cs = rto_cases(sp, obs, fail)
+        else:
+            mark_dloc(sp, obs["D"])
+            fail = oracle_check(sp, obs)
+            cs = ugla_cases(sp, obs, fail, st_ugla[iface][0])
+        for c in cs:
+            c.meta["hspec"] = {k: h[k] for k in ("id", "skind", "iface", "spec0", "spec1", "assign", "lik_b", "cell")}
+            c.meta["step"] = step
+        cases.extend(cs)
+
+    def guarded(f):
+        try:
+            return f()
+        except Exception as ex:
+            import traceback
+            return {"raised": "%s: %s" % (type(ex).__name__, ex), "trace": traceback.format_exc()[-1500:]}
+    objs = build_shared(cuqi, spec0)
+    # step A: first sampler on the shared objects
+    obsA = guarded(lambda: observe(cuqi, spec0, target=objs["post"]))
+    emit(spec0, obsA, "A-first-sampler")
+    if "raised" in obsA:
+        return cases
+    S1 = obsA["_sampler"]
+    snapA = snapshot(obsA)
+    # re-assign in place
+    do_assign(objs, asg)
+    # step B: new sampler on the SAME objects = sampler of fresh objects carrying the new value
+    obsB = guarded(lambda: observe(cuqi, spec1, target=objs["post"]))
+    emit(spec1, obsB, "B-new-sampler-same-objects")
+    if "raised" in obsB:
+        return cases
+    S2 = obsB["_sampler"]
+    snapB = snapshot(obsB)
+    obsF = guarded(lambda: observe(cuqi, spec1))                      # really fresh objects
+    same = "raised" not in obsF and snapshot(obsF) == snapB and \
+        json.dumps([d["x"] for d in obsF["draws"]]) == json.dumps([d["x"] for d in obsB["draws"]])
+    cases.append(Case(expr=cbool(same), meta={"hspec": {k: h[k] for k in ("id", "skind", "iface", "spec0", "spec1", "assign", "lik_b", "cell")},
+                                              "step": "B-bitwise-vs-fresh", "stage": "bitwise"}, cell=h["cell"] + "/B-bitwise-vs-fresh", kind="DECISION",
+                      impl_fail=None if same else "a sampler built on the re-assigned objects differs (b_tild / M / draws) from one built on fresh objects with the same values",
+                      signature="" if same else ("%s|history:rebuild-differs-from-fresh|%s-%s" % (iface, asg["who"], asg["param"]))))
+    # step C: the OLD sampler keeps being used
+    if skind == "rto":
+        noise_changed = asg["who"] == "noise"
+        if not noise_changed or st_flag2[iface] == "captured":
+            obsC = guarded(lambda: observe(cuqi, spec0, target=objs["post"], sampler=S1))
+            if "raised" not in obsC:
+                # S_liks / S_prior are read from the LIVE objects by observe(); the old sampler works with the captured ones
+                obsC["S_liks"], obsC["S_prior"] = obsA["S_liks"], obsA["S_prior"]
+            emit(spec0, obsC, "C-old-sampler-after-reassign(snapshot)")
+        else:
+            cases.extend(stale_noise_cases(cuqi, h, objs, S1, obsA, obsB, tag))
+    else:
+        if iface == "legacy":
+            mixed = spec1
+        else:
+            mixed = spec1 if UGLA_EXP_STALE[asg["param"] if asg["who"] == "prior" else asg["who"]] == "new" else spec0
+        obsC = guarded(lambda: observe(cuqi, mixed, target=objs["post"], sampler=S1))
+        if "raised" not in obsC and mixed is spec0:
+            obsC["S_liks"] = obsA["S_liks"]
+        emit(mixed, obsC, "C-old-sampler-after-reassign(%s)" % ("new value" if mixed is spec1 else "snapshot"))
+    # step D: a third sampler shares the prior object with another likelihood; the second one must be unaffected
+    if skind == "rto":
+        specD = dict(copy.deepcopy(spec1), liks=[h["lik_b"]])
+        with quiet():
+            l = h["lik_b"]
+            modelb = mk_model(cuqi, l["A"], specD["mkind"], len(l["b"]), dom_geom(cuqi, specD))
+            yb = cuqi.distribution.Gaussian(modelb(objs["x"]), name="yb", **gauss_kwargs(l["noise"]))
+            postD = cuqi.distribution.Posterior(yb.to_likelihood(np.array(l["b"], dtype=float)), objs["x"])
+        obsD = guarded(lambda: observe(cuqi, specD, target=postD))
+        emit(specD, obsD, "D-third-sampler-sharing-prior")
+    # keep-alive: the second sampler re-read after everything else happened
+    obsB2 = guarded(lambda: observe(cuqi, spec1, target=objs["post"], sampler=S2))
+    alive = "raised" not in obsB2 and snapshot(obsB2) == snapB and \
+        json.dumps([d["x"] for d in obsB2["draws"]]) == json.dumps([d["x"] for d in obsB["draws"]])
+    cases.append(Case(expr=cbool(alive), meta={"hspec": {k: h[k] for k in ("id", "skind", "iface", "spec0", "spec1", "assign", "lik_b", "cell")},
+                                               "step": "E-keep-alive", "stage": "bitwise"}, cell=h["cell"] + "/E-keep-alive", kind="DECISION",
+                      impl_fail=None if alive else "a living sampler changed (b_tild / M / draws) although none of its objects was touched since it was last read",
+                      signature="" if alive else ("%s|history:living-sampler-changed|%s-%s" % (iface, asg["who"], asg["param"]))))
+    return cases
+
+
+def stale_noise_cases(cuqi, h, objs, S1, obsA, obsB, tag):
+    """LinearRTO as it stands, old sampler after an in-place re-assignment of the noise: b_tild and flag 1 from the captured
+    sqrtprec, flag 2 from the live one.  The faithful model (check_precompute2) is compared; the oracle states that the
+    draw belongs to neither posterior."""
+    spec0, spec1, iface = h["spec0"], h["spec1"], h["iface"]
+    n = spec0["n"]
+    sp = tag(spec0, "C-old-sampler-after-noise-reassign(stale)")
+    hmeta = {k: h[k] for k in ("id", "skind", "iface", "spec0", "spec1", "assign", "lik_b", "cell")}
+    try:
+        p = len(obsA["b_tild"])
+        b_t = np.array(S1.b_tild, dtype=float).tolist()
+        fwd = [np.array(S1.M(np.array(basis(n, j)), 1), dtype=float).tolist() for j in range(n)]
+        adj = [np.array(S1.M(np.array(basis(p, i)), 2), dtype=float).tolist() for i in range(p)]
+        with Capture(cuqi) as cap:
+            x0, rec, log = one_draw(cuqi, spec0, S1, spec0["xcurs"][0], [0.0] * p, cap)
+    except Exception as ex:
+        return [raised_case(sp, {"raised": "%s: %s" % (type(ex).__name__, ex)})]
+    l0, l1 = spec0["liks"][0], spec1["liks"][0]
+    ls_old = clist(["(%s, %s, %s)" % (qm(l0["A"]), qm(obsA["S_liks"][0]), qv(l0["b"]))])
+    ls_new = clist(["(%s, %s, %s)" % (qm(l1["A"]), qm(obsB["S_liks"][0]), qv(l1["b"]))])
+    pobs = {"S_prior": obsA["S_prior"]}
+    exact = all_small(obsA["S_prior"], obsA["S_liks"][0], obsB["S_liks"][0]) and all_small(spec0["prior"].get("mean", [0]))
+    body = "check_precompute2 %s %s %s %s pr %s %s %s" % (c_tol(0 if exact else 9), cnat(n), ls_old, ls_new, qv(b_t), qm(fwd), qm(adj))
+    cases = [Case(expr=c_prior_obs(spec0, pobs, body), meta={"spec": sp, "hspec": hmeta, "step": "C-stale", "stage": "precompute-stale"}, cell=sp["cell"])]
+    # oracle: old or new posterior mean?
+    verdicts = []
+    for spx, obsx in ((spec0, obsA), (spec1, obsB)):
+        H, r, mean_f, cov_f = exact_posterior(spx, obsx)
+        mean = np.array([float(v) for v in mean_f])
+        sc = max(np.max(np.abs(mean)), math.sqrt(max(float(cov_f[i][i]) for i in range(len(cov_f)))))
+        verdicts.append(bool(np.max(np.abs(x0 - mean)) <= 1e-6 * sc))
+    detail = None
+    if not any(verdicts):
+        detail = ("old sampler after the noise %s was re-assigned in place: x(e=0) = %s is the mean of neither the posterior at construction "
+                  "nor the current one (flag 1 uses the captured sqrtprec, flag 2 the re-read one)" % (h["assign"]["param"], x0.tolist()))
+    cases.append(Case(expr=cbool(detail is not None), meta={"spec": sp, "hspec": hmeta, "step": "C-stale", "stage": "stale-draw"}, cell=sp["cell"],
+                      impl_fail=detail, signature=SIG_STALE[iface] if detail else ""))
+    return cases
+
+
 def run(ctx):
     import cuqi
     rng = ctx.rng
@@ -1137,6 +1608,17 @@ def run(ctx):
         cases += rto_cases(spec, obs, fail)
         ndraws += len(obs["draws"])
         nfired += sum(1 for d in obs["draws"] if d["fired"])
+    for cell in lattice_big(ctx):
+        spec = gen_big_spec(cuqi, rng, cell)
+        obs = try_observe(cuqi, spec)
+        if "raised" in obs:
+            cases.append(raised_case(spec, obs))
+            continue
+        obs.pop("_sampler", None)
+        cases += rto_cases(spec, obs, oracle_check(spec, obs))
+        ndraws += len(obs["draws"])
+        nfired += sum(1 for d in obs["draws"] if d["fired"])
+    cases += regularized_cases(cuqi, rng, ctx)
     cases += refusal_cases(cuqi, rng)
     # ---- UGLA -----------------------------------------------------------------------------------
     st = probe_ugla(cuqi)
@@ -1154,6 +1636,17 @@ def run(ctx):
         cases += ugla_cases(spec, obs, fail, st[spec["iface"]][0])
         ndraws += len(obs["draws"])
         nfired += sum(1 for d in obs["draws"] if d["fired"])
+    # ---- histories on shared objects ---------------------------------------------------------------
+    st2 = probe_flag2(cuqi)
+    for iface in ("exp", "legacy"):
+        ctx.note("LinearRTO %s: flag 2 reads the noise sqrtprec %s" % (iface, "again on every call (as the code stands)" if st2[iface] == "live"
+                                                                        else "from the captured list (repaired state)"))
+    nh = 0
+    for cell in history_cells(ctx):
+        h = gen_history(cuqi, rng, cell)
+        cases += run_history(cuqi, h, st, st2)
+        nh += 1
+    ctx.note("%d parameter re-assignment histories on shared objects" % nh)
     ctx.note("CGLS stopping test fired in %d of %d scripted transitions (tol %g, maxit %d)" % (nfired, ndraws, TOL, MAXIT))
     return Result(cases=cases, rule=RULE,
                   extra={"scripted_transitions": ndraws, "cgls_stop_fired": nfired,
@@ -1172,8 +1665,18 @@ def run(ctx):
 
 
 # ---------------------------------------------------------------------------------------------
+def rerun_history(cuqi, meta):
+    h = meta["hspec"]
+    return run_history(cuqi, h, probe_ugla(cuqi), probe_flag2(cuqi))
+
+
 def oracle(ctx, meta):
     import cuqi
+    if meta.get("hspec"):
+        for c in rerun_history(cuqi, meta):
+            if c.impl_fail and c.meta.get("step") == meta.get("step"):
+                return c.impl_fail
+        return None
     spec = meta.get("spec")
     if not spec:
         return None
@@ -1199,7 +1702,13 @@ def classify(meta, detail):
 def known_witnesses(ctx):
     import cuqi
     st = probe_ugla(cuqi)
-    return {SIG_UGLA[i]: (not st[i][0], st[i][1]) for i in ("exp", "legacy")}
+    out = {SIG_UGLA[i]: (not st[i][0], st[i][1]) for i in ("exp", "legacy")}
+    st2 = probe_flag2(cuqi)
+    for i in ("exp", "legacy"):
+        out[SIG_STALE[i]] = (st2[i] == "live", "witness history (A 4x3, noise cov [1,4,16,.25] re-assigned in place to [4,1,1,1]): flag 2 of the living "
+                             "sampler %s" % ("follows the re-assignment while flag 1 and b_tild keep the captured sqrtprec" if st2[i] == "live"
+                                             else "keeps the captured sqrtprec (consistent snapshot)"))
+    return out
 
 
 def search(ctx):
@@ -1235,6 +1744,14 @@ def replay(ctx, meta):
     import cuqi
     m = meta.get("meta", meta)
     print(json.dumps({k: v for k, v in meta.items() if k != "meta"}, indent=1)[:3000])
+    if m.get("hspec"):
+        h = m["hspec"]
+        print("history %s: re-assign %s.%s in place to %s" % (h["cell"], h["assign"]["who"], h["assign"]["param"], json.dumps(h["assign"]["value"])[:400]))
+        print("objects before:", json.dumps({"liks": h["spec0"]["liks"], "prior": h["spec0"]["prior"]})[:1500])
+        for c in rerun_history(cuqi, m):
+            if c.meta.get("stage") in ("law", "bitwise", "stale-draw", "raised"):
+                print("  step %-45s %-10s %s" % (c.meta.get("step"), c.meta.get("stage"), "PROPERTY FAILS: " + str(c.impl_fail)[:600] if c.impl_fail else "holds"))
+        return 0
     spec = m.get("spec")
     if not spec:
         if m.get("witness"):
